@@ -66,6 +66,12 @@ func runC01(rep *Report, r *Rng, tier string) {
 		rep.Sample0(c)
 		runIdxCase(o, c, rep, flagsFor("C01"))
 	}
+	// corpus: the known finding D15 — a NUL byte in a column name makes two different pairs share a value index
+	{
+		d := &DataSpec{Rows: [][]string{{hx("a\x00b"), hx("c")}, {hx("a"), hx("b\x00c")}, {hx("a"), hx("z")}}}
+		c := &IdxCase{Data: d, Writer: "mem", Cache: -1, Queries: []QCase{{E: &Ex{Op: "E", C: hx("a"), V: hx("b\x00c")}}, {E: &Ex{Op: "E", C: hx("a\x00b"), V: hx("c")}}}}
+		runIdxCase(o, c, rep, flagsFor("C01"))
+	}
 	sizes := []int{1000, 4096}
 	if tier == "thorough" {
 		sizes = append(boundarySizes, 150000)
@@ -134,6 +140,14 @@ func runC05(rep *Report, r *Rng, tier string) {
 		}
 		rep.Sample0(c)
 		runIdxCase(o, c, rep, flagsFor("C05"))
+	}
+	// corpus: a (column,value) pair whose value index (xxhash64 of "c\x00"+value) is 0 — found by inverting xxhash64
+	for _, w := range writers {
+		zero := "6161616161613904f41fb0d71f19"
+		d := &DataSpec{Rows: [][]string{{hx("c"), zero, hx("d"), hx("1")}, {hx("c"), hx("other")}, {hx("c"), zero}}}
+		c := &IdxCase{Data: d, Writer: w, Cache: -1, Queries: []QCase{{E: &Ex{Op: "E", C: hx("c"), V: zero}, GB: []string{hx("c")}}, {E: &Ex{Op: "N", Kids: []*Ex{{Op: "E", C: hx("c"), V: zero}}}}}}
+		runIdxCase(o, c, rep, flagsFor("C05"))
+		rep.Count("corpus-hash-zero")
 	}
 	// both writers on the same rows give the same file contents (keys) and answers: batch boundaries
 	sizes := []int{1001, 2500}
